@@ -10,7 +10,8 @@ import lib
 
 CONFIGS = [{}, {"hash_fn": "blake3"}, {"hash_fn": "sha256"}, {"max_prefix": 512}, {"max_prefix": 100000}, {"max_suffix": 512}, {"max_suffix": 16384},
            {"transform_cmd": "head -c 100"}, {"transform_cmd": "head -c 7"}, {"transform_cmd": "tail -c +17"}, {"transform_cmd": "tail -c +9"},
-           {"transform_cmd": "head -c 100", "hash_fn": "blake3"}, {"rf_over": 0}, {"unique": True}]
+           {"transform_cmd": "head -c 100", "hash_fn": "blake3"}, {"rf_over": 0}, {"unique": True},
+           {"transform_cmd": "vt_part"}, {"transform_cmd": "vt_part"}]        # vt_part: writes the first 50 bytes and fails (exit 3)
 DISKS = [None, "ssd", "hdd"]
 MS = 1_000_000
 
@@ -22,6 +23,10 @@ class History:
         self.base = os.path.join(self.work, "b")
         os.makedirs(os.path.join(self.base, "d1"))
         os.makedirs(os.path.join(self.base, "d2"))
+        os.makedirs(os.path.join(self.work, "bin"))
+        with open(os.path.join(self.work, "bin", "vt_part"), "w") as f:
+            f.write("#!/bin/sh\nhead -c 50\nexit 3\n")
+        os.chmod(os.path.join(self.work, "bin", "vt_part"), 0o755)
         self.now_ms = lib.OLD_MTIME * 1000
         self.seen = {}          # (st_ino) -> {(mtime_ms, len): digest}   the precondition: content is a function of (mtime ms, length)
         self.files = []
@@ -206,6 +211,8 @@ def run_history(t):
             trace = os.path.join(h.work, f"trace{s}.ndjson")
             env = lib.base_env(h.work, disk_kind=disk)
             envc = lib.base_env(h.work, disk_kind=disk, trace=trace)
+            for e_ in (env, envc):
+                e_["PATH"] = os.path.join(h.work, "bin") + ":" + e_["PATH"]
             if rng.random() < 0.2:
                 # an interrupted cached run first: it may leave any subset of its entries behind
                 senv = lib.shim_env(envc, root=h.base, plan=f"read||{rng.randint(1, 6)}|killafter")
